@@ -58,8 +58,6 @@ def obs_class(want, got):
     if got.startswith("CRASH") or got == "TIMEOUT":
         return "crash"
     w, g = want.split("|")[0], got.split("|")[0]
-    if w == g:
-        return "wrong-log"
     if w.startswith("E:") and g.startswith("E:"):
         return "wrong-exception"
     if w.startswith("E:"):
@@ -69,6 +67,27 @@ def obs_class(want, got):
     return "wrong-value"
 
 
+def compare(shape, rec, want, got):
+    """-> list of (aspect, obs_class) in which the compiled code differs from the expectation"""
+    if not isinstance(got, str) or got.startswith("CRASH") or got == "TIMEOUT":
+        return [("result", "crash")]
+    wr, _, wl = want.partition("|")
+    gr, _, gl = got.partition("|")
+    out = []
+    if wr != gr:
+        oc = obs_class(wr, gr)
+        impl = rec.get("impl")
+        if impl is not None and rec.get("hz") and gr == impl:
+            oc = "as-flatten-model" if shape["part"] == "member" else "as-char-model"
+        out.append(("result", oc))
+    if wl != gl:
+        oc = "wrong-log"
+        if shape["part"] == "member" and shape["form"] == "leaf" and gl == "".join(map(str, rec["ilog"])):
+            oc = "members-before-x"
+        out.append(("log", oc))
+    return out
+
+
 def descriptor(shape, rec):
     p = shape["part"]
     if p == "chain":
@@ -76,12 +95,14 @@ def descriptor(shape, rec):
         op = shape["ops"][n - 2]
         return {"part": "chain", "nops": len(shape["ops"]), "ops": ",".join(shape["ops"]), "ty": shape["ty"], "ctx": shape["ctx"],
                 "form": shape["form"], "expected": rec["out"], "deciding_op": op,
-                "cint_in_bytes": op in ("in", "notin") and shape["ty"][n - 2] == "i" and shape["ty"][n - 1] == "y"}
+                "cint_in_bytes": op in ("in", "notin") and shape["ty"][n - 2] == "i" and shape["ty"][n - 1] == "y",
+                "in_first_c_later": lc.chain_suspect(shape)}
     if p == "member":
         return {"part": "member", "kind": shape["kind"], "neg": shape["neg"], "form": shape["form"], "xty": shape["xty"], "ctx": shape["ctx"],
                 "n": len(shape["mdoms"]), "hz": rec["hz"], "why": rec["why"], "expected": rec["out"]}
     return {"part": "strin", "kind": shape["kind"], "neg": shape["neg"], "xty": shape["xty"], "ctx": shape["ctx"], "cint": shape["cint"],
-            "hz": rec["hz"], "expected": rec["out"], "xkind": rec["x"]["k"]}
+            "hz": rec["hz"], "expected": rec["out"], "xkind": rec["x"]["k"],
+            "highbyte": rec["x"]["k"] == "int" and rec["x"]["v"] >= 128 and rec["x"]["v"] in shape["cs"] and len(set(shape["cs"])) >= 2}
 
 
 def modules_of(funcs, prefix):
@@ -104,6 +125,10 @@ def run(tier, seed):
     wd = core.subdir("c19")
     cov = {"tlc": []}
     quick = tier == "quick"
+    timing = {}
+
+    def mark(what):
+        timing[what] = round(time.time() - t0, 1)
 
     # ------------------------------------------------------------------ shapes
     shapes = {"chain": lc.chain_shapes(tier, rng), "member": lc.member_shapes(tier, rng), "strin": lc.strin_shapes(tier, rng)}
@@ -136,21 +161,34 @@ def run(tier, seed):
     want_cases = {part: sum(ncases(part, s) for s in sh) for part, sh in shapes.items()}
 
     # render chain / member / strin functions (they do not depend on TLC's output)
-    funcs, pysrc = [], [lc.HEADER_PY]
+    funcs, pysrc, suspects = [], [lc.HEADER_PY], []
     render = {"chain": lc.render_chain, "member": lc.render_member, "strin": lc.render_strin}
     for part, sh in shapes.items():
         for s in sh:
             pyx, py = render[part](s, s["name"])
-            funcs.append((s["name"], pyx))
             pysrc.append(py)
+            if part == "chain" and lc.chain_suspect(s):
+                suspects.append((s["name"], pyx))
+            else:
+                funcs.append((s["name"], pyx))
     rng.shuffle(funcs)
     cms_mods = modules_of(funcs, "c19a")
+    # shapes of the known code-generation defect: one module each (a sample), so that they cannot take others down
+    n_suspects = len(suspects)
+    suspects = rng.sample(suspects, min(len(suspects), 12 if quick else 40))
+    sus_mods = [("c19x%d" % i, [n], lc.HEADER_PYX + src) for i, (n, src) in enumerate(suspects)]
+    cms_mods = cms_mods + sus_mods
 
     ex = concurrent.futures.ThreadPoolExecutor(max_workers=12)
     tl_timeout = 600 if quick else 3000
 
     def tlc_part(part, cfg, workers, shapes_file=None, delay=0.0):
         time.sleep(delay)
+        r = tlc_run(cfg, workers, shapes_file)
+        mark("tlc_" + cfg)
+        return r
+
+    def tlc_run(cfg, workers, shapes_file):
         return core.tlc("Compare", cfg=cfg, workers=workers, env={"SHAPES": shapes_file or ""}, timeout=tl_timeout,
                         heap=None if quick else "12g")
     fut = {
@@ -159,6 +197,7 @@ def run(tier, seed):
         "member": ex.submit(tlc_part, "member", "Compare_member", 4, files["member"], 0.2),
         "strin": ex.submit(tlc_part, "strin", "Compare_strin", 1, files["strin"], 0.3),
         "member_strict": ex.submit(tlc_part, "member", "Compare_member_strict", 1, files["member_strict"], 0.4),
+        "member_order_strict": ex.submit(tlc_part, "member", "Compare_member_order_strict", 1, files["member_strict"], 0.45),
         "strin_strict": ex.submit(tlc_part, "strin", "Compare_strin_strict", 1, files["strin_strict"], 0.5),
         "switch_strict": ex.submit(tlc_part, "switch", "Compare_switch_strict", 1, None, 0.6),
     }
@@ -217,6 +256,7 @@ def run(tier, seed):
             [core.BuildSpec(n, src, cc="clang", directives={"optimize.use_switch": False}) for n, _, src in nosw_mods] + \
             [core.BuildSpec(n, src, cc="clang") for n, _, src in hz_mods]
     fbuild_sw = ex.submit(core.build_many, specs, os.path.join(wd, "b_sw"), 8)
+    mark("switch_rendered")
 
     # ------------------------------------------------------------------ the other TLC runs
     published = {}
@@ -230,7 +270,7 @@ def run(tier, seed):
         published[part] = r.printed
         r.out = ""
     refuted = {}
-    for key, inv in (("member_strict", "FlattenStrict"), ("strin_strict", "StrinStrict"), ("switch_strict", "SwitchStrict")):
+    for key, inv in (("member_strict", "FlattenStrict"), ("member_order_strict", "FlattenOrderStrict"), ("strin_strict", "StrinStrict"), ("switch_strict", "SwitchStrict")):
         r = fut[key].result()
         refuted[key] = r.violation
         if r.violation != inv:
@@ -267,6 +307,7 @@ def run(tier, seed):
         core.die("vacuous model: no case of class(es) %s" % missing)
     cov["case_classes"] = classes
 
+    mark("tlc_all_done")
     # ------------------------------------------------------------------ P: CPython on the same source
     pns = {}
     exec(compile("\n".join(pysrc), "<c19-plain-python>", "exec"), pns)
@@ -318,11 +359,20 @@ def run(tier, seed):
         d.update(extra or {})
         rep.disagree(d, "build-failed", {"module": b.name, "errors": b.errors[-2500:]})
 
+    mark("cpython_oracle_done")
     builds_cms = fbuild_cms.result()
+    mark("builds_cms_done")
     jobs = []
     for (mname, names, _), b in zip(cms_mods, builds_cms):
         if not b.ok:
-            build_failed(b, "chain/member/strin module")
+            if mname.startswith("c19x"):
+                sshape = per_func[names[0]][0]
+                d = descriptor(sshape, per_func[names[0]][1][0])
+                d.update({"aspect": "build", "expected": "n/a", "deciding_op": "n/a", "cint_in_bytes": False, "stage": b.stage})
+                rep.disagree(d, "build-failed", {"function": render["chain"](sshape, names[0])[0],
+                                                 "errors": [ln for ln in b.errors.splitlines() if "rror" in ln][-3:]})
+            else:
+                build_failed(b, "chain/member/strin module")
             continue
         table = []
         for name in names:
@@ -333,6 +383,7 @@ def run(tier, seed):
                 table.append(["RC", [name, [case_args(s, rec) for rec in recs]]])
         jobs.append((b, names, table))
     builds_sw = fbuild_sw.result()
+    mark("builds_switch_done")
     swjobs = []
     fdict = {f["name"]: f for f in swfuncs + hzfuncs}
     b3 = {"model_switch_real_switch": 0, "model_switch_real_none": 0, "model_none_real_switch": 0, "model_none_real_none": 0,
@@ -369,6 +420,7 @@ def run(tier, seed):
 
     allobs = list(ex.map(lambda j: run_module(j[0], j[2]), jobs + swjobs))
     ex.shutdown()
+    mark("compiled_runs_done")
 
     def unpack(o, n):
         """observation of one call -> list of n per-case observations"""
@@ -388,12 +440,10 @@ def run(tier, seed):
                         ok_pairs.append((want, got))
                     continue
                 stats["mismatches"] += 1
-                oc = obs_class(want, got)
-                d = descriptor(s, rec)
-                if s["part"] == "member" and rec["hz"] and isinstance(got, str) and got.split("|")[0] == rec["impl"] and got.split("|")[1:] == want.split("|")[1:]:
-                    oc = "as-flatten-model"
-                rep.disagree(d, oc, {"function": lc.render_chain(s, name)[0] if s["part"] == "chain" else render[s["part"]](s, name)[0],
-                                     "args": case_args(s, rec), "want": want, "got": got, "cpython": want})
+                for aspect, oc in compare(s, rec, want, got):
+                    d = descriptor(s, rec)
+                    d["aspect"] = aspect
+                    rep.disagree(d, oc, {"function": render[s["part"]](s, name)[0], "args": case_args(s, rec), "want": want, "got": got})
     for (b, names, table, mode), obs in zip(swjobs, allobs[len(jobs):]):
         for name, o in zip(names, obs):
             f = fdict[name]
@@ -441,10 +491,11 @@ def run(tier, seed):
         "traces_validated_against_impl": stats["cases"], "evaluations": stats["cases"], "distinct_nontrivial": nontriv,
         "functions_compiled": stats["functions"], "modules": len(jobs) + len(swjobs), "mismatching_cases": stats["mismatches"],
         "crashed_functions": stats["crashed_functions"], "spec_vs_cpython_drift": n_drift,
+        "known_crash_pattern_shapes": {"generated": n_suspects, "compiled_in_own_module": len(suspects)},
         "published_cases": {p: len(v) for p, v in published.items()} | {"switch": len(swcases)},
         "switch_functions": {"chains": sum(1 for f in swfuncs if f["kind"] == "chain"), "expression_contexts": sum(1 for f in swfuncs if f["kind"] == "expr"),
                              "hazard_modules": len(hzfuncs)},
-        "B3_switch_statements_in_generated_C": b3,
+        "B3_switch_statements_in_generated_C": b3, "timing_s": timing,
         "rule": "one compiled function per shape (operator sequence x operand typing x context x leaf/name form; container kind x form x "
                 "subject typing; if/elif chain x subject typing x use_switch), called with every value tuple TLC enumerated for it; "
                 "non-trivial = distinct (function, arguments) pairs",
